@@ -309,7 +309,13 @@ def _get_function_insertion_lineno(
 def _get_constant_insertion_lineno(scope: ast.AST) -> int:
     import_types = (ast.Import, ast.ImportFrom)
     imports = [node for node in scope.body if not isinstance(node, import_types)]
-    return min((node.lineno for node in imports)) - 1
+
+    # A decorated definition begins with its first decorator
+    def first_lineno(node: ast.AST) -> int:
+        decorators = getattr(node, "decorator_list", [])
+        return min([node.lineno, *(decorator.lineno for decorator in decorators)])
+
+    return min(map(first_lineno, imports)) - 1
 
 
 def create_abstractions(source: str) -> str:
